@@ -103,7 +103,7 @@ Definition sx_of_hstate (st : hstate) : sx :=
 Fixpoint run_heap (st : hstate) (p : list stmt) : list sx :=
   match p with
   | [] => []
-  | s :: r => let st1 := exec amend_clones_first no_verb_stores_into_operands st s in sx_of_hstate st1 :: run_heap st1 r
+  | s :: r => let st1 := exec amend_clones_first (no_verb_stores_into_operands && no_array_caches_in_backends) st s in sx_of_hstate st1 :: run_heap st1 r
   end.
 
 Definition dispatch (x : sx) : sx :=
